@@ -181,7 +181,18 @@ def search_shape(ctx):
                                     'the search decides on the sign of `%s = %s`: the difference of two 32-bit keys wraps when '
                                     'they are 80000000h or more apart, the search then turns the wrong way and existing '
                                     'entries are reported as missing' % (s1.name, show(r)), node.line)
-        ka, kb = _masked_key(a, m), _masked_key(b, m)
+        def _mk(side, nid=nid):
+            # the masked element key may have been hoisted into a local (`dev = CO_GET_DEV(obj->Key)`)
+            r = _masked_key(side, m)
+            s1 = strip(side)
+            if r is None and s1.k == 'ref' and s1.refk == 'VarDecl':
+                u = d.unique_def(nid, s1.ref)
+                if u is not None:
+                    r2 = _masked_key(u[1], m)
+                    if r2 is not None and r2[0] == 'key':
+                        return r2
+            return r
+        ka, kb = _mk(a), _mk(b)
         if x.op == '==':
             match = (node, ka, kb, a, b)
         elif x.op in ('>', '<', '>=', '<='):
